@@ -32,6 +32,7 @@ class VUnit:
     kind = "verus"
     def __init__(self):
         self.name = None; self.file = None; self.fns = []; self.tier = "quick"; self.pair = None
+        self.role = "contract"
         self.cls = "unbounded"; self.expect_fail = []; self.timeout = 300; self.bound = ""; self.mem = "light"
 
     @property
